@@ -347,6 +347,33 @@ def filt_body(case):
                 rt = np.asarray(call(filter_thru, f1[t:t + 1].copy(), **kw1), dtype='f8')
                 check(rt.shape == (1, 5) and bool(np.all(np.abs(rt[0] - r1[t]) <= 1e-9 * max(1.0, np.abs(r1).max()))), 'filter:trace-result-depends-on-the-other-traces',
                       lambda: dict(trace=t, alone=rt.tolist(), in_image=r1[t].tolist()))
+    # round 9 seed C19_9A (built in round 11): the caller goes on using its wavelength image / trace set - refills it in place with another
+    # solution of another dispersion shape (linear in wavelength between the same ends) - and asks again: the answer is the one a fresh
+    # copy of that second solution gets
+    w2 = wave[:, :1] + (wave[:, -1:] - wave[:, :1]) * k[None, :] / (nx - 1)
+    kwh = dict(toair=case['toair'])
+    if mask is not None:
+        kwh['mask'] = mask
+    if case['wset'] and jump is None:
+        x0_ = case.get('wxmin', 0)
+        other = xy2traceset(np.tile(k + x0_, (ntr, 1)), np.log10(w2), ncoeff=kw['wset'].coeff.shape[1], xmin=x0_, xmax=x0_ + nx - 1, maxiter=0, func=case.get('wfunc', 'legendre'))
+        import copy as _copy
+        holder = _copy.deepcopy(kw['wset'])          # the harness' own trace set stays as it is for the relations below
+        call(filter_thru, f1.copy(), wset=holder, **kwh)
+        holder.coeff[...] = other.coeff
+        again = np.asarray(call(filter_thru, f1.copy(), wset=holder, **kwh), dtype='f8')
+        fresh = np.asarray(call(filter_thru, f1.copy(), wset=other, **kwh), dtype='f8')
+        holder_kind = 'trace set'
+    else:
+        holder = wave.copy()
+        call(filter_thru, f1.copy(), waveimg=holder, **kwh)
+        holder[...] = w2
+        again = np.asarray(call(filter_thru, f1.copy(), waveimg=holder, **kwh), dtype='f8')
+        fresh = np.asarray(call(filter_thru, f1.copy(), waveimg=w2.copy(), **kwh), dtype='f8')
+        holder_kind = 'wavelength image'
+    with judge('refilled-solution'):
+        check(again.shape == fresh.shape and bool(np.all(np.abs(again - fresh) <= 1e-9 * max(1.0, np.abs(fresh).max()))), 'filter:stale-answer-after-the-wavelength-solution-was-refilled-in-place',
+              lambda: dict(holder=holder_kind, maxdev=float(np.abs(again - fresh).max()), again=again.tolist()[:2], fresh=fresh.tolist()[:2]))
     a, b = case['alpha'], case['beta']
     r12 = run(a * f1 + b * f2)
     rc = run(np.full((ntr, nx), case['c']))
